@@ -48,7 +48,14 @@ type c11File struct {
 	BigLen   int `json:"big_len,omitempty"`
 	BigSeed  int `json:"big_seed,omitempty"`
 	BigChunk int `json:"big_chunk,omitempty"`
+	// how the source's Reads end (c11ReadStyles): "" = the data, then (0, io.EOF); "eof-with-data" = the last bytes come TOGETHER
+	// with io.EOF in one Read (allowed by the io.Reader contract: HTTP bodies of known length, iotest.DataErrReader, limited and
+	// decompressing readers do it); "empty-reads" = a (0, nil) Read before every chunk (allowed too, if discouraged).
+	// An *os.File source ignores it.
+	Reads string `json:"reads,omitempty"`
 }
+
+var c11ReadStyles = []string{"", "eof-with-data", "empty-reads"}
 
 type c11Field struct {
 	Name   Bs   `json:"name"`
@@ -83,6 +90,11 @@ type c11In struct {
 	// before its body is read (requests in flight together), and read afterwards. What this request sends must not depend on them.
 	BuiltBefore int `json:"built_before,omitempty"`
 	BuiltAfter  int `json:"built_after,omitempty"`
+	// data that quotes an earlier request of the same process: another request of the same shape (c11Neighbour) is built and sent
+	// first on the same Runtime, and its dump (request line, Content-Type header with the boundary, the body as sent) is appended to
+	// this request's first upload ("file") or first form-field value ("value") - uploading a debug log, a proxy capture, a server
+	// echo. The dump is read at run time (obs.Dump). Whatever an earlier request looked like, this one must carry its data whole.
+	Dump string `json:"dump,omitempty"`
 	// the case runs on one processor (GOMAXPROCS 1): every goroutine the requests start shares it, so anything recycled per
 	// processor (sync.Pool) goes straight from one request to the next
 	OneP bool `json:"one_p,omitempty"`
@@ -134,6 +146,9 @@ type c11Obs struct {
 	Base       Bs         `json:"base,omitempty"`
 	OSNames    map[string]string `json:"-"` // "<file field>/<index>" -> the path of the *os.File behind that upload
 	ValueGo    string     `json:"value_go,omitempty"` // %T of the value payload
+	Dump       Bs         `json:"-"`                  // the dump of the earlier request that in.Dump put into this request's data
+	HasDump    bool       `json:"has_dump,omitempty"`
+	DumpLen    int        `json:"dump_len,omitempty"`
 }
 
 type c11 struct{}
@@ -149,6 +164,9 @@ func (c11) Rule() string {
 		"auth writer absent or calling GetBody 0,1,2,3 times; value payloads of 18 dynamic types (string, []byte, named/pointer variants, map, struct, slice, numbers, bool, typed nil pointer, json.RawMessage, marshalers) under every producer; " +
 		"reader payloads of 20 dynamic types, fresh or handed over after a prefix was read or seeked past; uploads made from an own type, through runtime.NamedReader (over plain, named, renamed readers, *os.File) or an *os.File itself. The outgoing request is read back with mime/multipart and url.ParseQuery. " +
 		"A third of the multipart / form / value cases are built with 1-4 other requests of the same shape and other contents in flight on the same Runtime (built after it, before its body is read), a sixth after 1-2 others were sent, half of these on one processor (GOMAXPROCS 1). " +
+		"Upload sources end their Reads in three ways (a quarter with the last bytes TOGETHER with io.EOF, a twelfth with a (0, nil) Read before every chunk; enumerated x the lengths around the sniffing window x chunkings x plain / NamedReader sources); " +
+		"two file names in five carry an extension (known to mime.TypeByExtension, known to system tables only, unknown, odd spellings; enumerated x text / unrecognised binary / PNG / PDF / HTML contents: the type comes from the declaration or the content, never from the name); " +
+		"one multipart / form case in eight quotes an earlier request of the same process: a request of the same shape is sent first on the same Runtime and its dump (Content-Type header with the boundary, body as sent) is appended to the first upload or form value. " +
 		"Non-trivial: a request that was built without error and carries a body."
 }
 
@@ -255,6 +273,14 @@ func c11Norm(in c11In) c11In {
 	if in.BuiltBefore == 0 && in.BuiltAfter == 0 {
 		in.OneP = false
 	}
+	switch {
+	case in.Kind != "body" || c11IsBig(in):
+		in.Dump = ""
+	case in.Dump == "file" && len(in.Files) > 0 && len(in.Files[0].Files) > 0 && !c11In1(in.Files[0].Files[0].Src, []string{"osfile", "named-osfile"}):
+	case in.Dump == "value" && len(in.Form) > 0 && len(in.Form[0].Values) > 0:
+	default:
+		in.Dump = ""
+	}
 	if in.Payload != "value" || !c11In1(in.VType, c11ValueTypes) {
 		in.VType = ""
 	}
@@ -291,6 +317,9 @@ func c11Norm(in c11In) c11In {
 			}
 			if !c11In1(f.Src, c11FileSources) {
 				f.Src = ""
+			}
+			if !c11In1(f.Reads, c11ReadStyles) || f.Src == "osfile" || f.Src == "named-osfile" {
+				f.Reads = ""
 			}
 			if f.Src != "" {
 				f.Declared = nil // runtime.NamedReader's result and *os.File have no ContentType()
@@ -342,6 +371,8 @@ type c11Src struct {
 	name   string
 	chunks [][]byte
 	closed int
+	reads  string // c11ReadStyles
+	empty  bool   // empty-reads: the (0, nil) Read before the next data was given
 }
 
 func (s *c11Src) Read(p []byte) (int, error) {
@@ -351,8 +382,23 @@ func (s *c11Src) Read(p []byte) (int, error) {
 	if len(s.chunks) == 0 {
 		return 0, io.EOF
 	}
+	if s.reads == "empty-reads" && !s.empty {
+		s.empty = true
+		return 0, nil
+	}
+	s.empty = false
 	n := copy(p, s.chunks[0])
 	s.chunks[0] = s.chunks[0][n:]
+	if s.reads == "eof-with-data" && n > 0 {
+		rest := 0
+		for _, c := range s.chunks {
+			rest += len(c)
+		}
+		if rest == 0 { // these were the last bytes: they come with io.EOF
+			s.chunks = nil
+			return n, io.EOF
+		}
+	}
 	return n, nil
 }
 func (s *c11Src) Close() error { s.closed++; return nil }
@@ -645,7 +691,7 @@ func c11Neighbour(in c11In, k int) c11In {
 }
 
 func c11MakeFile(f c11File, tmpdir func() string) (file runtime.NamedReadCloser, osPath string) {
-	src := &c11Src{name: string(f.Name)}
+	src := &c11Src{name: string(f.Name), reads: f.Reads}
 	for _, c := range f.Chunks {
 		src.chunks = append(src.chunks, []byte(c))
 	}
@@ -679,6 +725,35 @@ func c11MakeFile(f c11File, tmpdir func() string) (file runtime.NamedReadCloser,
 		return c11SrcCT{src, string(*f.Declared)}, ""
 	}
 	return src, ""
+}
+
+// c11ApplyDump puts the dump recorded in obs where in.Dump says (on a copy): at the end of the first upload's content (one more
+// Read) or of the first form-field value
+func c11ApplyDump(in c11In, obs c11Obs) c11In {
+	if in.Dump == "" || !obs.HasDump {
+		return in
+	}
+	switch in.Dump {
+	case "file":
+		if len(in.Files) == 0 || len(in.Files[0].Files) == 0 {
+			return in
+		}
+		files := append([]c11FileField(nil), in.Files...)
+		files[0] = c11FileField{Name: files[0].Name, Files: append([]c11File(nil), files[0].Files...)}
+		f := files[0].Files[0]
+		f.Chunks = append(append([]Bs(nil), f.Chunks...), obs.Dump)
+		files[0].Files[0] = f
+		in.Files = files
+	case "value":
+		if len(in.Form) == 0 || len(in.Form[0].Values) == 0 {
+			return in
+		}
+		form := append([]c11Field(nil), in.Form...)
+		form[0] = c11Field{Name: form[0].Name, Values: append([]Bs(nil), form[0].Values...)}
+		form[0].Values[0] = form[0].Values[0] + obs.Dump
+		in.Form = form
+	}
+	return in
 }
 
 func c11Content(f c11File) string {
@@ -729,7 +804,8 @@ func (c11) Run(inAny any) any {
 		}
 	}
 	pad := func(b []byte) []byte { return append(append([]byte{}, b...), make([]byte, 512-len(b))...) }
-	for _, ff := range in.Files {
+	recordSniff := func(files []c11FileField) {
+	for _, ff := range files {
 		for _, f := range ff.Files {
 			if f.Declared != nil {
 				continue
@@ -753,6 +829,7 @@ func (c11) Run(inAny any) any {
 			addSniff(first)
 			addSniff(pad(first))
 		}
+	}
 	}
 
 	rt := client.New("example.com", "/", []string{"http"})
@@ -815,7 +892,6 @@ func (c11) Run(inAny any) any {
 		return nil
 	})
 	}
-	writer := mkWriter(in, valuePayload, streamPayload, true)
 	// the other requests built on the same Runtime (c11Neighbour): built and, when asked, read to the end
 	neighbour := func(k int) *http.Request {
 		nin := c11Neighbour(in, k)
@@ -870,6 +946,30 @@ func (c11) Run(inAny any) any {
 		case <-time.After(10 * time.Second):
 		}
 	}
+	if in.Dump != "" {
+		// an earlier request of this process, sent; its dump becomes part of this request's data
+		dump := []byte("POST /x HTTP/1.1\r\nHost: example.com\r\n")
+		if nreq := neighbour(300); nreq != nil {
+			dump = append(dump, "Content-Type: "+nreq.Header.Get("Content-Type")+"\r\n\r\n"...)
+			if nreq.Body != nil {
+				ch := make(chan []byte, 1)
+				go func() {
+					b, _ := io.ReadAll(nreq.Body)
+					_ = nreq.Body.Close()
+					ch <- b
+				}()
+				select {
+				case b := <-ch:
+					dump = append(dump, b...)
+				case <-time.After(10 * time.Second):
+				}
+			}
+		}
+		obs.Dump, obs.HasDump, obs.DumpLen = Bs(dump), true, len(dump)
+		in = c11ApplyDump(in, obs)
+	}
+	recordSniff(in.Files)
+	writer := mkWriter(in, valuePayload, streamPayload, true)
 	for k := 0; k < in.BuiltBefore; k++ {
 		drain([]*http.Request{neighbour(100 + k)})
 	}
@@ -1077,6 +1177,7 @@ func c11OptBs(b *Bs) string {
 
 func (c11) Coq(inAny any, obsAny any) string {
 	in, obs := c11Expand(inAny.(c11In)), obsAny.(c11Obs)
+	in = c11ApplyDump(in, obs)
 	if in.Kind == "escape" {
 		return fmt.Sprintf("CEscape %s %s %s", coqBytes(string(in.S)), coqBytes(string(obs.Escaped)), coqBytes(string(obs.Base)))
 	}
@@ -1292,6 +1393,30 @@ func (c11) Category(inAny any, obsAny any) (string, bool) {
 			kind += "+payload"
 		}
 	}
+	if in.Kind == "body" {
+		styles, ext := map[string]bool{}, false
+		for _, ff := range in.Files {
+			for _, f := range ff.Files {
+				if f.Reads != "" {
+					styles[f.Reads] = true
+				}
+				if f.Declared == nil && mime.TypeByExtension(filepath.Ext(filepath.Base(string(f.Name)))) != "" {
+					ext = true
+				}
+			}
+		}
+		for _, st := range c11ReadStyles {
+			if styles[st] {
+				bigTag += "/" + st
+			}
+		}
+		if ext {
+			bigTag += "/typed-extension"
+		}
+		if in.Dump != "" {
+			bigTag += "/quotes-earlier-request-in-" + in.Dump
+		}
+	}
 	if in.BuiltBefore > 0 {
 		bigTag += "/after-other-requests"
 	}
@@ -1395,8 +1520,15 @@ func c11CleanName(s string) string {
 	return s
 }
 
+// file name extensions: the ones mime.TypeByExtension knows by itself, some the system tables may know, unknown ones, odd spellings
+var c11Exts = []string{".pdf", ".png", ".json", ".html", ".htm", ".css", ".js", ".mjs", ".xml", ".svg", ".gif", ".jpg", ".jpeg", ".wasm", ".webp", ".avif",
+	".txt", ".csv", ".zip", ".gz", ".tar.gz", ".mp4", ".bin", ".exe", ".PNG", ".Html", ".unknownext", ".", ".pdf ", ".p\"df"}
+
 func c11FileName(r *rand.Rand) string {
 	n := c11CleanName(c11Name(r))
+	if r.Intn(5) < 2 { // a name with an extension
+		n += c11Exts[r.Intn(len(c11Exts))]
+	}
 	switch r.Intn(6) {
 	case 0:
 		return "/tmp/dir/" + n
@@ -1436,6 +1568,12 @@ func c11GenFile(r *rand.Rand, big bool) c11File {
 		if f.Src != "" {
 			f.Declared = nil
 		}
+	}
+	switch r.Intn(12) { // how the source's Reads end
+	case 0, 1, 2:
+		f.Reads = "eof-with-data"
+	case 3:
+		f.Reads = "empty-reads"
 	}
 	return f
 }
@@ -1527,6 +1665,15 @@ func (c11) Gen(r *rand.Rand, tier string, i int) any {
 			if in.Auth < 0 && r.Intn(2) == 0 {
 				in.Auth = 1 + r.Intn(2)
 			}
+		}
+	}
+	// data that quotes an earlier request sent by this process
+	if r.Intn(8) == 0 {
+		in.Dump = []string{"file", "value"}[r.Intn(2)]
+		if len(in.Files) == 0 || len(in.Files[0].Files) == 0 {
+			in.Dump = "value"
+		} else if len(in.Form) == 0 || len(in.Form[0].Values) == 0 {
+			in.Dump = "file"
 		}
 	}
 	// requests in flight together / one after the other on the same Runtime (not next to a big content)
@@ -1646,6 +1793,80 @@ func (c11) Enumerate(tier string) []any {
 				}
 			}
 		}
+	}
+	// how the source's Reads end x every length around the sniffing window x signatures x chunking
+	for _, st := range c11ReadStyles[1:] {
+		for _, n := range []int{0, 1, 11, 300, 511, 512, 513, 600, 1024, 4096} {
+			for si, sig := range []string{"", "\x89PNG\r\n\x1a\n", "\x00\x01\x02"} {
+				b := c11Bytes(r, n, false)
+				copy(b, sig)
+				for ch := 0; ch < 4; ch++ {
+					chunks := []Bs{Bs(b)}
+					switch {
+					case ch == 0:
+					case ch == 1 && n >= 2:
+						chunks = []Bs{Bs(b[:1]), Bs(b[1:])}
+					case ch == 2 && n > 100:
+						chunks = []Bs{Bs(b[:100]), Bs(b[100:])}
+					case ch == 3 && n > 512: // the last Read starts exactly at the end of the window
+						chunks = []Bs{Bs(b[:512]), Bs(b[512:])}
+					default:
+						continue
+					}
+					src := []string{"", "named", "named-bare"}[(si+ch)%3]
+					auth := []int{-1, 1}[(si+ch+n)%2]
+					out = append(out, c11In{Kind: "body", Method: "POST", Media: "multipart/form-data", Payload: "nil", Auth: auth,
+						Files: []c11FileField{{Name: "file", Files: []c11File{{Name: Bs(fmt.Sprintf("dir/f%d.bin", n)), Chunks: chunks, Reads: st, Src: src}}}}})
+				}
+			}
+		}
+		// next to a form field and a second file, with a declared type, with other requests in flight
+		png := Bs("image/png")
+		for _, n := range []int{5, 512, 700} {
+			b := c11Bytes(r, n, false)
+			out = append(out, c11In{Kind: "body", Method: "PUT", Media: "application/json", Payload: "nil", Auth: 1,
+				Form: []c11Field{{Name: "note", Values: []Bs{"v"}}},
+				Files: []c11FileField{{Name: "up", Files: []c11File{{Name: "a.txt", Chunks: []Bs{Bs(b)}, Reads: st}, {Name: "b.png", Chunks: []Bs{Bs(b)}, Reads: st, Declared: &png},
+					{Name: "c.txt", Chunks: []Bs{"tail"}, Reads: st}}}}})
+			out = append(out, c11In{Kind: "body", Method: "POST", Media: "multipart/form-data", Payload: "nil", Auth: -1, BuiltAfter: 2,
+				Files: []c11FileField{{Name: "up", Files: []c11File{{Name: "a.txt", Chunks: []Bs{Bs(b)}, Reads: st}, {Name: "second.txt", Chunks: []Bs{"plain text"}}}}}})
+		}
+	}
+	// file name extensions x contents (text, binary without a known signature, known signatures that agree or disagree with the
+	// extension) x how the upload was made: the type is declared or sniffed from the content, whatever the name says
+	for ei, ext := range c11Exts {
+		for si, sig := range []string{"", "\x00\x01\x02", "\x89PNG\r\n\x1a\n", "%PDF-1.4\n", "<html><body>", "\xfe\xed\xfa\xce\x00\x00"} {
+			n := []int{11, 600, 3}[(ei+si)%3]
+			b := c11Bytes(r, n, si%2 == 1)
+			copy(b, sig)
+			if si == 1 || si == 5 { // binary, and nothing a sniffer knows
+				for k := len(sig); k < len(b); k++ {
+					b[k] = byte(1 + (k*7+ei)%8)
+				}
+			}
+			src := []string{"", "named", "named-own"}[(ei+si)%3]
+			f := c11File{Name: Bs("dir/report" + ext), Chunks: []Bs{Bs(b)}, Src: src}
+			if src == "named-own" {
+				f.Inner = Bs("inner" + c11Exts[(ei+7)%len(c11Exts)])
+			}
+			out = append(out, c11In{Kind: "body", Method: "POST", Media: "multipart/form-data", Payload: "nil", Auth: []int{-1, 1}[(ei+si)%2],
+				Files: []c11FileField{{Name: "file", Files: []c11File{f}}}})
+		}
+	}
+	// data that quotes an earlier request of the same process (its dump appended to an upload / a form value): files only, fields
+	// only, both; the own content empty, short, longer than the sniffing window; other requests before / in flight
+	for k, n := range []int{0, 11, 600} {
+		own := Bs(c11Bytes(r, n, false))
+		files := []c11FileField{{Name: "file", Files: []c11File{{Name: "capture.log", Chunks: []Bs{own}}, {Name: "second.txt", Chunks: []Bs{"plain text"}}}}}
+		form := []c11Field{{Name: "note", Values: []Bs{own, "v2"}}}
+		for _, auth := range []int{-1, 1} {
+			out = append(out, c11In{Kind: "body", Method: "POST", Media: "multipart/form-data", Payload: "nil", Auth: auth, Files: files, Dump: "file"})
+			out = append(out, c11In{Kind: "body", Method: "POST", Media: "multipart/form-data", Payload: "nil", Auth: auth, Form: form, Dump: "value"})
+			out = append(out, c11In{Kind: "body", Method: "PUT", Media: "application/json", Payload: "nil", Auth: auth, Form: form, Files: files, Dump: []string{"file", "value", "file"}[k]})
+			out = append(out, c11In{Kind: "body", Method: "POST", Media: "application/x-www-form-urlencoded", Payload: "nil", Auth: auth, Form: form, Dump: "value"})
+		}
+		out = append(out, c11In{Kind: "body", Method: "POST", Media: "multipart/form-data", Payload: "nil", Auth: -1, Form: form, Files: files, Dump: "value", BuiltBefore: 2})
+		out = append(out, c11In{Kind: "body", Method: "POST", Media: "multipart/form-data", Payload: "nil", Auth: -1, Form: form, Files: files, Dump: "file", BuiltAfter: 2, OneP: true})
 	}
 	// a value payload under every media type, with and without form fields
 	for _, m := range c11Medias {
